@@ -107,6 +107,53 @@ def run_verus(prop, tier, plan, ev, findings):
                 if und: undecided.append('%s: canary undecided: %s' % (tag, und[:3]))
     return undecided
 
+def run_vlex(prop, tier, plan, ev, findings):
+    """V-lex: Verus on the code logos_codegen::generate emits for corpus definitions (lib/vlex_engine.py)"""
+    spec = plan.get('vlex')
+    if not spec: return []
+    import vlex_engine as VL
+    pairs = P.vlex_select(spec, tier)
+    if not pairs: return ['V-lex: no (definition, generator) pair selected']
+    undecided = []
+    defs = sorted(set(d for d, _ in pairs)); cgs = sorted(set(c for _, c in pairs))
+    canaries = ('lex_body', 'root') if tier == 'quick' else ('all',)
+    o = VL.run(defs, cgs, REPO, WORK, canaries=canaries, only=set(pairs), canary_defs=set(spec.get('canary_defs', defs[:2])) if tier == 'quick' else None)
+    if o['error']:
+        return ['V-lex: %s' % o['error'][:1500]]
+    ev['rewrites'].update('V-lex prelude: ' + n for n in o['prelude_notes'])
+    for r in o['results']:
+        tag = 'V-lex[%s/%s]' % (r['defn'], r['codegen'])
+        n_obl = len(r.get('inserted', [])) + len(r.get('fns', {}))
+        failed = set()
+        for f in r.get('failures', []):
+            key = f.get('fn') or '?'
+            name = '%s::%s::%s' % (tag, key, f.get('clause') or f['message'])
+            failed.add(name)
+            findings.append(dict(kind='verus', obligation=name, fn=key, clause=f.get('clause'), message=f['message'], src=f.get('code'),
+                                 rendered=f.get('rendered'), unit=tag, cfg=dict(codegen=r['codegen']), twin=None,
+                                 vlex=dict(defn=r['defn'], codegen=r['codegen'])))
+        if r.get('status') == 'undecided':
+            undecided.append('%s: %s' % (tag, r.get('reason')))
+        ev['verus_runs'].append(dict(unit=tag, status=r.get('status'), functions_verified=r.get('verified'), function_errors=r.get('errors'),
+                                     obligations_for_property=n_obl, failed=len(failed), smt_ms=r.get('smt_ms'), total_ms=r.get('total_ms'),
+                                     wall_s=r.get('wall_s'), checker_cmd=r.get('cmd'), states=r.get('n_states'), root=r.get('root'),
+                                     eoi_targets=r.get('eoi_targets'), source_type=r.get('source_ty')))
+        ev['obligations'] += n_obl
+        ev['discharged'] += (n_obl - len(failed)) if r.get('status') in ('ok', 'fail') else 0
+        ev['functions_under_contract'].update('%s (generated by logos_codegen::generate for corpus definition %s, %s)' % (k, r['defn'], r['codegen']) for k in r.get('fns', {}))
+        ev['samples'] += [dict(obligation='%s::%s' % (tag, c)) for c in r.get('inserted', [])[:2]]
+        ev['rewrites'].update('V-lex %s: %s' % (r['defn'], w) for w in r.get('rewrites', []) if not w.startswith('L4 dropped attribute'))
+        ev['assumptions_scanned'].update('%s: %s' % (os.path.basename(r.get('file', tag)), c.split(': ', 1)[1]) for c in r.get('cheats', []))
+        if r.get('status') == 'ok' and n_obl == 0:
+            undecided.append('%s: zero obligations (vacuity guard)' % tag)
+    vac = [c for c in o['canary_results'] if not c['failed_as_required']]
+    ev['canaries'].append(dict(unit='V-lex', checked=len(o['canary_results']), vacuous=[c['tag'] for c in vac if c['status'] == 'ok'],
+                               undecided=[c['tag'] for c in vac if c['status'] != 'ok']))
+    for c in vac:
+        if c['status'] == 'ok': undecided.append('V-lex: canary `ensures false` on %s verified (%s) - contradictory precondition' % (c['key'], c['tag']))
+        else: undecided.append('V-lex: canary %s undecided: %s' % (c['tag'], c.get('reason')))
+    return undecided
+
 def write_replay(prop, f, extra=None):
     os.makedirs(REPLAYS, exist_ok=True)
     h = hashlib.sha1(f['obligation'].encode()).hexdigest()[:8]
@@ -142,6 +189,7 @@ def main(argv):
     findings = []
     undecided = []
     undecided += run_verus(prop, tier, plan, ev, findings)
+    undecided += run_vlex(prop, tier, plan, ev, findings)
     if plan.get('kani'):
         import kani_engine as K
         undecided += K.run(prop, tier, plan, ev, findings, REPO, seed)
